@@ -45,6 +45,8 @@ fn main() {
     let mut ctx = core::Ctx::new(seed ^ 0xC0FFEE, scale);
     if args.len() > 5 && args[5] == "--sym" {
         ctx.sym = true;
+    } else if args.len() > 6 && args[5] == "--probe" {
+        ctx.probes = Some(core::read_probes(&args[6]));
     } else if args.len() > 5 {
         ctx.only = Some(args[5].clone());
     }
